@@ -119,4 +119,24 @@ theorem kf_cap_id (p : Nat) (k : Int) (h : k < (fixedArith p).one) : kfCap (fixe
     simp [h]
   simp [hf]
 
+/-! ## nothing negative, keep factors in [0, 1] (run level)
+
+`meek_sign` (`DroopProofs/MeekSign.lean`), restated for fixed-point arithmetic: in every snapshot of the record of a meek or
+warren count on strict ballots — from `begin` to the last exclusion or election — the votes credited plus the residual equal the
+ballots, no tally and no residual is negative, and every keep factor lies between 0 and 1. The upper bound rests on the cap of the
+keep-factor update (fix F13); strict positivity of an elected candidate's keep factor is *not* a theorem (findings M1/M2). -/
+theorem meek_warren_sign_fixed (p : Nat) (o : MeekOpts) (omega : Int) (iterFuel fuel : Nat) (s0 t : St Int)
+    (h0 : MInit (fixedArith p) s0)
+    (hl : loopN (fun s => !meekCountComplete s) (meekBody (fixedArith p) o omega iterFuel) fuel (meekInit (fixedArith p) s0) = some t) :
+    RecM (fixedArith p) (t.hopeful.foldl (meekRemainingStep (fixedArith p) o) t)
+    ∧ RecK (fixedArith p) (t.hopeful.foldl (meekRemainingStep (fixedArith p) o) t)
+    ∧ KState (fixedArith p) (t.hopeful.foldl (meekRemainingStep (fixedArith p) o) t) :=
+  meek_sign _ (fixed_lawful p) (fixed_lawfulMeek p) (by simp [fixedArith]) o omega iterFuel fuel s0 t h0 hl
+
+/-- what `RecK` says about one snapshot -/
+theorem recK_unfolded (p : Nat) (s : St Int) (h : RecK (fixedArith p) s) :
+    ∀ a ∈ s.acts, ∀ sn, a.snap = some sn →
+      (∀ e ∈ sn.cs, 0 ≤ e.2.2.1 ∧ ∀ k, e.2.2.2.1 = some k → 0 ≤ k ∧ k ≤ pow10 p) ∧ 0 ≤ sn.x1 :=
+  h
+
 end Droop.C08
